@@ -74,6 +74,8 @@ impl Authorizer {
     /// The language spec and formal model give a precise definition of how this is
     /// computed.
     pub fn is_authorized(&self, q: Request, pset: &PolicySet, entities: &Entities) -> Response {
+        #[cfg(feature = "verif-trace")]
+        crate::verif_trace::authz_event(&q, pset, entities, self.extensions);
         self.is_authorized_core(q, pset, entities).concretize()
     }
 
